@@ -30,7 +30,8 @@ RULE = ("cases: (a) ser.todict — a generated dataclass tree over the C05 gramm
         "least one marked field or container; distinct by canonical JSON.")
 ASSUMPTIONS = [
     "json.dumps / yaml.safe_dump are the acceptance tests named by the property",
-    "hooks are the six fixed functions of HOOKS (model: hookEnv); theorems quantify over every hook environment",
+    "hooks are the ten fixed functions of HOOKS (10-14 encoders, 20-22, 24, 25 decoders; model: hookEnv in Drive/Serial.lean); "
+    "theorems quantify over every hook environment",
 ]
 TRUSTED = ["stdlib json, copy; PyYAML"]
 EXHAUSTIVE = {"quick": False, "thorough": False}
@@ -246,7 +247,8 @@ def gen(rng, tier):
         yield {"op": "ser.todict", "case": {"ty": T, "x": x}}
         if i % 2 == 0 and not B._has_tuple_key(T):
             extra = rng.random() < 0.3
-            yield {"op": "ser.decode", "case": {"kind": "purity", "ty": pair_hooks(T), "x": x, "extra": extra}}
+            yield {"op": "ser.decode", "case": {"kind": "purity", "ty": pair_hooks(T), "x": x, "extra": extra,
+                                                "drop": rng.random() < 0.3, "method": rng.random() < 0.7}}
     # dicts that carry `_type_` entries (to_dict(save_dc_types=True)), classes living in a real generated module
     for _ in range(90 if quick else 2000):
         T, x, src = B.gen_src_case(rng, rng.choice([0, 1, 1, 2, 2]))
@@ -353,6 +355,24 @@ def _run(fn):
         return {"o": "raise", "exc": type(e).__name__}, None
 
 
+def add_extra_keys(T, V, J):
+    """An unknown key at the top level and in every directly nested instance dict (not below hooked fields)."""
+    if T["k"] == "opt":
+        return J if V["t"] == "none" else add_extra_keys(T["inner"], V, J)
+    if T["k"] != "dc" or V["t"] != "inst" or J.get("t") != "dict":
+        return J
+    fm = {f["name"]: f for f in T["fields"]}
+    vals = dict((n, x) for n, x in V["v"])
+    out = []
+    for jk, jv in J["v"]:
+        f = fm.get(jk.get("v"))
+        if f is not None and f.get("enc") is None and f.get("dec") is None:
+            jv = add_extra_keys(f["ty"], vals[f["name"]], jv)
+        out.append([jk, jv])
+    out.append([{"t": "str", "v": "zz_extra"}, {"t": "list", "v": [B.V_int(1)]}])
+    return dict(J, v=out)
+
+
 def count_type_keys(d):
     if isinstance(d, dict):
         return int("_type_" in d) + sum(count_type_keys(v) for v in d.values())
@@ -430,6 +450,11 @@ def _impl(case, b):
         # opposite insertion order
         d_again = S.to_dict(x)
         obs["same_again"] = d_again == d
+        d_ids = {id(n): p for p, n in mutable_nodes(d)}
+        obs["alias_again"] = [{"again": p, "first": d_ids[id(n)]} for p, n in mutable_nodes(d_again) if id(n) in d_ids][:20]
+        o_cp, x_copy = _run(lambda: copy.deepcopy(x))
+        obs["copy_same"] = True if o_cp["o"] != "ok" else bool(x_copy == x and S.to_dict(x_copy) == d)
+        obs["n_mutable"] = {"out": len(d_ids), "in": len(in_ids)}
         x_rev = build_reversed(b, c["x"])
         obs["rev_equal"] = bool(x_rev == x)
         d_rev = S.to_dict(x_rev)
@@ -450,11 +475,15 @@ def _impl(case, b):
     if op == "ser.decode":
         raw_spec = spec_encode(c["ty"], c["x"], b)
         if c.get("extra"):
-            raw_spec = dict(raw_spec, v=raw_spec["v"] + [[{"t": "str", "v": "zz_extra"}, {"t": "list", "v": [B.V_int(1)]}]])
+            raw_spec = add_extra_keys(c["ty"], c["x"], raw_spec)
         raw = b.val(raw_spec)
         snap = cv(raw)
         b.calls.clear()
-        o, r = _run(lambda: S.from_dict(cls, raw))
+        kw = {"drop_extra_fields": True} if c.get("drop") else {}
+        if isinstance(x, S.SerializableMixin) and c.get("method", True):
+            o, r = _run(lambda: cls.from_dict(raw, **kw))      # the classmethod form
+        else:
+            o, r = _run(lambda: S.from_dict(cls, raw, **kw))
         obs = {"out": dict(o, v=cv(r)) if o["o"] == "ok" else o, "raw_iter": cv(raw, set_iter=True), "raw_spec": raw_spec,
                "dec_calls": {k: v for k, v in b.calls.items() if k.endswith(".dec")}}
         obs["raw_unchanged"] = cv(raw) == snap
@@ -522,6 +551,12 @@ def oracle(case, obs):
         if not obs["json_ok"] or not obs["yaml_ok"]:
             fails.append({"clause": "writers-accept", "detail": f"json.dumps ok={obs['json_ok']} yaml.safe_dump ok={obs['yaml_ok']}",
                           "nodes": obs["nonprim"]})
+        if obs.get("alias_again"):
+            fails.append({"clause": "no-aliasing", "detail": f"two calls of to_dict share mutable nodes {obs['alias_again'][:3]} (the "
+                                                             f"structure is not fresh)"})
+        if not obs.get("copy_same", True):
+            fails.append({"clause": "functional", "detail": "a deep copy of the instance (equal to it) serializes differently",
+                          "out": obs["out"]["v"], "rev_out": obs["out"]["v"], "copy": True})
         if obs["alias"] or not obs["probe_out"] or not obs["probe_in"]:
             fails.append({"clause": "no-aliasing", "detail": f"alias pairs {obs['alias'][:3]} probe_out={obs['probe_out']} probe_in={obs['probe_in']}"})
         if not obs["x_unchanged"]:
@@ -543,11 +578,12 @@ def oracle(case, obs):
                                                             f"reversed-build equal={obs['rev_equal']} same output={obs['rev_same']}",
                           "out": obs["out"]["v"], "rev_out": obs["rev_out"]})
     else:
-        if obs["out"]["o"] != "ok":
-            return []   # decoding failures of lossy annotations are C05's subject
         if not obs["raw_unchanged"] or not obs.get("probe_out", True):
             fails.append({"clause": "from_dict-pure", "detail": f"from_dict changed its argument (unchanged={obs['raw_unchanged']}, "
-                                                                f"after mutating the result={obs.get('probe_out')})"})
+                                                                f"after mutating the result={obs.get('probe_out')}, outcome "
+                                                                f"{obs['out']['o']})"})
+        if obs["out"]["o"] != "ok":
+            return fails   # decoding failures of lossy annotations are C05's subject; purity was looked at above
         if obs.get("alias"):
             fails.append({"clause": "from_dict-no-aliasing", "detail": f"result shares {obs['alias'][:3]} with the argument"})
         exp_calls = expected_calls(T, c["x"], "dec")
@@ -593,8 +629,24 @@ def tags(case, obs):
     if case["op"] == "ser.typed":
         t.append(f"type-keys:{min(obs.get('n_type_keys', 0), 3)}")
     if case["op"] == "ser.todict" and obs["out"]["o"] == "ok":
-        t.append(f"mutable-out:{min(len(obs.get('alias', [])), 3)}alias")
+        nm = obs.get("n_mutable", {"out": 0, "in": 0})
+        t.append("mutable-nodes-out:" + ("0" if nm["out"] == 0 else ("1-3" if nm["out"] <= 3 else "4+")))
+        t.append("mutable-nodes-in:" + ("0" if nm["in"] == 0 else ("1-3" if nm["in"] <= 3 else "4+")))
         t.append("rev-equal" if obs["rev_equal"] else "rev-differs")
+        if _has_set_value(case["case"]["x"]) or _has_multi_dict(case["case"]["x"]):
+            t.append("rev-differs-build")
+        if has_kind(T, lambda u: u["k"] == "dc" and any(f.get("enc") == 14 for f in u["fields"])):
+            t.append("enc-returns-none")
+        if B.has_odict(case["case"]["x"]):
+            t.append("ordereddict")
+    if case["op"] == "ser.decode":
+        if case["case"].get("extra"):
+            t.append("extra-key")
+        if case["case"].get("drop"):
+            t.append("drop_extra_fields=True")
+        if any(f.get("dec") is not None and f.get("to_dict", True) and x[1]["t"] == "none"
+               for f, x in zip(T["fields"], case["case"]["x"]["v"]) if f.get("enc") is None):
+            t.append("dec-on-none")
     return t
 
 
@@ -640,6 +692,17 @@ def _ms(j):
     return j
 
 
+def _has_multi_dict(V):
+    t = V["t"]
+    if t == "dict":
+        return len(V["v"]) >= 2 or any(_has_multi_dict(x) for _, x in V["v"])
+    if t in ("list", "tuple", "set"):
+        return any(_has_multi_dict(x) for x in V["v"])
+    if t == "inst":
+        return any(_has_multi_dict(f[1]) for f in V["v"])
+    return False
+
+
 def f_set_order(case, obs, fail):
     """Only the 'equal instances, equal output' clause fails, the instance holds a set with >= 2 elements, the same
     instance serialized twice agrees, and the two outputs are equal once lists are compared as multisets."""
@@ -652,7 +715,7 @@ def f_set_order(case, obs, fail):
         if isinstance(j, dict) and j.get("t") == "dict":
             return dict(j, v=sorted(([ms(k), ms(x)] for k, x in j["v"]), key=lambda y: json.dumps(y, sort_keys=True)))
         return j
-    return ms(fail["out"]) == ms(fail["rev_out"])
+    return ms(B.strip_odict(fail["out"])) == ms(B.strip_odict(fail["rev_out"]))
 
 
 def f_tuple_key(case, obs, fail):
@@ -661,30 +724,50 @@ def f_tuple_key(case, obs, fail):
     if fail.get("clause") == "functional":
         # the list of (key, value) pairs follows the dict's insertion order, which dict equality ignores
         return (bool(obs.get("same_again")) and B._nonempty_tuple_key_dict(case["case"]["ty"], case["case"]["x"])
-                and _ms(fail["out"]) == _ms(fail["rev_out"]))
+                and _ms(B.strip_odict(fail["out"])) == _ms(B.strip_odict(fail["rev_out"])))
     nodes = fail.get("nodes") or []
     if fail.get("clause") == "content":
         nodes = obs.get("nonprim") or []
-    return (fail.get("clause") in ("primitives-only", "content") and bool(nodes) and all(n["py"] == "tuple" for n in nodes)
+    allowed = {"tuple"} | ({"OrderedDict"} if B.has_odict(case["case"]["x"]) else set())
+    return (fail.get("clause") in ("primitives-only", "content") and any(n["py"] == "tuple" for n in nodes)
+            and all(n["py"] in allowed for n in nodes)
             and B._has_tuple_key(case["case"]["ty"]) and B._nonempty_tuple_key_dict(case["case"]["ty"], case["case"]["x"]))
+
+
+def f_odict(case, obs, fail):
+    """The instance holds a collections.OrderedDict in a Dict position and the only non-primitive nodes of the output are
+    OrderedDicts (encode_dict builds `type(obj)()`), which yaml.safe_dump refuses (json.dumps takes them)."""
+    nodes = fail.get("nodes") or []
+    tup = B._has_tuple_key(case["case"]["ty"]) and B._nonempty_tuple_key_dict(case["case"]["ty"], case["case"]["x"])
+    allowed = {"OrderedDict"} | ({"tuple"} if tup else set())
+    return (case["op"] == "ser.todict" and fail.get("clause") in ("primitives-only", "writers-accept")
+            and B.has_odict(case["case"]["x"]) and any(n["py"] == "OrderedDict" for n in nodes)
+            and all(n["py"] in allowed for n in nodes)
+            and (fail.get("clause") == "primitives-only" or (obs.get("json_ok") and not obs.get("yaml_ok"))))
 
 
 FINDINGS = {
     "C13-set-iteration-order": f_set_order,
     "C13-tuple-key-dict-emits-tuples": f_tuple_key,
+    "C13-ordereddict-survives": f_odict,
 }
 
 MANIFEST = {
-    "text": ("Proof, partial. Lean theorems over the shared Serial model: to_dict of every value of the grammar is made only of "
-             "dict/list/str/int/float/bool/None (c13_prim, any nesting depth), the keys of to_dict are exactly the fields not marked "
-             "to_dict=False in field order (c13_omit, any field list, any hook environment), a field's encoding_fn / decoding_fn is what "
-             "produces that field's entry (c13_encoding_hook, c13_decoding_hook) and no other entry depends on it (c13_hook_local); "
-             "encode of an instance is to_dict of it, Serializable or not (c13_encode_is_to_dict); named gaps with witnesses: set "
-             "iteration order (D15), tuple-keyed dicts emit tuples. Freshness / no-aliasing and purity of from_dict are checked on the real code by id()-based "
+    "text": ("Proof, partial. Lean theorems over the shared Serial model: to_dict of every value of the grammar - any nesting depth, any "
+             "subset of fields hidden, any subset of written fields given an encoding_fn that answers primitives - succeeds and is made "
+             "only of dict/list/str/int/float/bool/None (c13_prim_hooks; c13_prim hook-free), and json.dumps / yaml.safe_dump take it "
+             "(c13_writers_accept); its keys are exactly the fields not marked to_dict=False in field order (c13_omit, c13_omit_total); "
+             "a field's encoding_fn / decoding_fn is what produces that field's entry (c13_encoding_hook, c13_decoding_hook, also for "
+             "instance-valued fields and a raw None) and ONLY that entry: the entries of the other fields are the same under any two "
+             "hook environments (c13_hook_only_its_field, c13_decoding_env_independent); encode of an instance is to_dict of it "
+             "(c13_encode_is_to_dict). Named gaps with witnesses and open findings: set iteration order (D15), tuple-keyed dicts emit "
+             "tuples, an OrderedDict survives. SAMPLED only (real code + oracle, no theorem): equal instances serialize to equal output "
+             "(same instance twice, deep copy, reversed build), freshness / no-aliasing and purity of from_dict are checked on the real code by id()-based "
              "alias detection and mutation probes on every mutable node (not modelled in Lean)."),
     "note": ("Trusted: Lean kernel + propext/Classical.choice/Quot.sound; json, PyYAML, copy; the harness. Modelled not verified: "
              "encoding.py:61-141, serializable.py:707-908, fields.py:111-120. Object identity is not part of the Lean model: the aliasing "
-             "clauses rest on the structure walk of real outputs."),
+             "clauses rest on the structure walk of real outputs. Outside the grammar and not generated: a frozenset held by a Set field survives "
+             "(deepcopy fallback) and Any-typed fields alias from_dict's argument."),
     "technique": "Lean 4 induction over values / field lists + differential correspondence + id()-based alias walk and mutation probes",
     "design_ref": "DESIGN.md section 5, C13",
 }
